@@ -355,6 +355,14 @@ func ConvertToJSON(val lua.LValue) string {
 		}
 		return "false"
 	case lua.LTNumber:
+		// JSON has no NaN or Infinity; use the same strings as field values
+		if f := float64(val.(lua.LNumber)); math.IsNaN(f) {
+			return `"NaN"`
+		} else if math.IsInf(f, +1) {
+			return `"+Inf"`
+		} else if math.IsInf(f, -1) {
+			return `"-Inf"`
+		}
 		return val.String()
 	case lua.LTString:
 		if b, err := json.Marshal(val.String()); err != nil {
@@ -378,8 +386,12 @@ func ConvertToJSON(val lua.LValue) string {
 			start = `{`
 			end = `}`
 			cb = func(lk lua.LValue, lv lua.LValue) {
-				values = append(
-					values, ConvertToJSON(lk)+`:`+ConvertToJSON(lv))
+				// member names must be JSON strings
+				name := ConvertToJSON(lk)
+				if lk.Type() != lua.LTString {
+					name = jsonString(lk.String())
+				}
+				values = append(values, name+`:`+ConvertToJSON(lv))
 			}
 		}
 		tbl.ForEach(cb)
